@@ -63,7 +63,7 @@ fn encode_active_layout(n: usize) {
         Ok(j) => {
             assert!(valid);
             check_image(&j, generation, 1, n, e0, e1);
-            kani::cover!(n == 2, "two-extent active image");
+            kani::cover!(n >= 1, "active image accepted");
             std::mem::forget(j);
         }
         Err(e) => {
